@@ -25,7 +25,8 @@ from ref import calendars as rc
 PROPERTY = "C13"
 LEVEL = "exploration"
 RULE = (
-    "Query histories generated to collide in caches: year starts for y, y+/-1024, y+/-2048 in every calendar (both "
+    "Query histories generated to collide in caches: year starts and the whole month structure (lengths, month "
+    "starts, month ends -> date) for y, y+/-1024, y+/-2048 incl. slot-boundary years in every calendar (both "
     "Hebrew numberings share one cache), zone-interval lookups at i, i+/-512*32 days, i+/-1024*32 days through the "
     "caching wrapper, pattern/format-info lookups cycling through > 500 cultures and back, provider lookups of ids, "
     "aliases, fixed ids and unknown ids in any order; and 2-4 threads issuing such queries against cold shared "
